@@ -689,18 +689,24 @@ def process_expand(gen, sec, vu_path):
                       'external': False, 'has_contract': any(d['name'] == 'contract-new' for d in sec['dirs']), 'serves': xserves})
 
 
-def expand_fragments(secs, seen=()):
+def expand_fragments(secs, seen=(), included=None):
+    """Fragments nest; a fragment is emitted once per unit (the first time it is named)."""
     out = []
+    if included is None:
+        included = set()
     for sec in secs:
         if sec['kind'] == 'fragment':
             name = sec['arg'].strip()
             if name in seen:
                 raise UnitError('fragment cycle: ' + name)
+            if name in included:
+                continue
+            included.add(name)
             p = os.path.join(VERIF, 'units', 'fragments', name + '.vuf')
             sub = parse_vu(p)
             for x in sub:
                 x['vu_path'] = x.get('vu_path') or p
-            out += expand_fragments(sub, seen + (name,))
+            out += expand_fragments(sub, seen + (name,), included)
         else:
             out.append(sec)
     return out
